@@ -101,6 +101,9 @@ def run_case(case, cl=None):
             b["after"] = [ERRORS[st_["alarm_after"] % len(ERRORS)]]
         if txt.startswith("M114"):
             b["report"] = f"X:{k + 1}.50 Y:2.00 Z:3.00 E:0.00 Count X:80 Y:160 Z:1200"
+            if st_.get("grbl_report"):
+                # the answer is a Grbl-style list with negative later coordinates
+                b["report"] = f"<Idle|MPos:{k + 1}.500,-2.250,-3.125|FS:0,0>"
         if txt.startswith("M105"):
             b["report"] = f"ok T:{200 + k}.0 /210.0 B:60.0 /60.0" if st_.get("okline") \
                 else f"T:{200 + k}.0 /210.0 B:60.0 /60.0"
@@ -131,6 +134,14 @@ def run_case(case, cl=None):
             w = SocketWriter("127.0.0.1", front.port)
         w.set_timeout(8.0)
         w2 = fw2 = None
+        builder = None
+        if case.get("via_builder"):
+            # statements handed to the writer by a builder it was added to: the
+            # same delivery, acknowledgement and error behaviour is expected
+            import gscrib
+            builder = gscrib.GCodeBuilder(line_endings="\\n")
+            builder.add_writer(w)
+            cl.add("statements_written_through_a_builder")
         try:
             if case["drain"]:
                 if "G4 P0" in behaviours:
@@ -207,7 +218,10 @@ def run_case(case, cl=None):
 
                 def call(txt=txt, box=box):
                     try:
-                        w.write((texts[k] + "\n").encode("utf-8"))
+                        if builder is not None:
+                            builder.write(texts[k])      # through a builder the writer was added to
+                        else:
+                            w.write((texts[k] + "\n").encode("utf-8"))
                         box["r"] = ("ok", None)
                     except BaseException as e:
                         box["r"] = ("exc", e)
@@ -303,7 +317,13 @@ def run_case(case, cl=None):
                     if kind == "exc":
                         raise Violation(f"write({txt!r}) raised {exc!r} although the device "
                                         f"acknowledged it; {desc}")
-                    if txt.startswith("M114"):
+                    if txt.startswith("M114") and st_.get("grbl_report"):
+                        got3 = tuple(w.get_parameter(a_) for a_ in "XYZ")
+                        if got3 != (k + 1.5, -2.25, -3.125):
+                            raise Violation(f"after write('M114') returned, X/Y/Z read {got3!r}; the "
+                                            f"device reported {b['report']!r}; {desc}")
+                        cl.add("query_reading_checked")
+                    elif txt.startswith("M114"):
                         x = w.get_parameter("X")
                         if x != k + 1.5:
                             raise Violation(f"after write('M114') returned get_parameter('X') "
@@ -432,13 +452,14 @@ def strategy():
     # a query whose answer is preceded by an unsolicited line carrying the same
     # letters (M114 after a Grbl status with MPos, M105 after a temperature
     # auto-report): the reading must be the one of the query's own report
+    grblq = st.integers(0, 3).map(lambda h: {"s": 3, "hold": h, "grbl_report": True})
     conflict = st.tuples(st.sampled_from([(3, 2), (4, 1), (3, 1), (4, 2)]), st.integers(0, 3)).map(
         lambda t: {"s": t[0][0], "hold": t[1], "unsolicited": [t[0][1]]})
     from vf.hist import weighted
     # a temperature query answered on the acknowledgement line itself
     # ("ok T:.. /.. B:.."): the reading belongs to that very statement
     okq = st.integers(0, 3).map(lambda h: {"s": 4, "hold": h, "okline": True})
-    stmt = weighted((7, stmt), (1, conflict), (1, okq))
+    stmt = weighted((7, stmt), (1, conflict), (1, okq), (1, grblq))
     return st.fixed_dictionaries({
         "transport": st.sampled_from(["serial", "serial", "socket"]),
         "greeting": st.sampled_from(["start", None, "Grbl 1.1"]),
@@ -448,6 +469,7 @@ def strategy():
         "second_writer": st.sampled_from([False, False, True]),
         "short_timeout": st.sampled_from([False, False, True]),
         "frag": st.sampled_from([None, None, "lf_alone", "halves"]),
+        "via_builder": st.sampled_from([False, False, True]),
         "restart": st.one_of(st.none(), st.none(), st.none(), st.fixed_dictionaries(
             {"at": st.integers(1, 7), "wait": st.booleans()})),
         "lose_last": st.one_of(st.just(False), st.just(False), st.just(True),
